@@ -1596,6 +1596,17 @@ def replay(ctx, path):
     rec = json.load(open(path, encoding='utf8'))
     print(json.dumps(rec, indent=1, ensure_ascii=False)[:4000])
     common.setup_jedi(os.path.join(ctx.tmp, 'cache'))
+    if (rec.get('sig') or {}).get('stream') == 'edited' and rec.get('versions'):
+        vs = []
+        for code in rec['versions']:
+            ls = code.split('\n')
+            call = ls[-1]
+            vs.append((code, [('get_signatures', len(ls), len(call)), ('goto', len(ls), 1), ('infer', len(ls), 1)]))
+        bad = _edited_task(dict(path=os.path.join(ctx.tmp, 'edited_replay.py'), versions=vs))
+        print('implementation now: %d unfaithful positions' % len(bad))
+        for b in bad[:5]:
+            print('  ', b)
+        return 0
     src = rec.get('source') or rec.get('string')
     if src is None and rec.get('path'):
         src = read_source(os.path.join(common.REPO, rec['path']))
